@@ -441,7 +441,7 @@ impl Exp {
         )
     }
 
-    /// Converts the expression to a string with proper operator precedence.
+    /// Converts the expression to a string as the left operand of `last_operator`.
     ///
     /// # Arguments
     /// * `last_operator` - The operator from the parent expression for precedence comparison
@@ -449,32 +449,27 @@ impl Exp {
     /// # Returns
     /// String representation with appropriate parentheses based on operator precedence
     pub fn to_string_with_precedence(&self, last_operator: BinOp) -> String {
-        let last_precedence = last_operator.precedence();
+        self.to_string_as_operand(last_operator, false)
+    }
+
+    /// Renders this expression as the left or right operand of `parent`, wrapping it in
+    /// parentheses whenever dropping them would change the grouping: a weaker operator always,
+    /// an operator of the same level on the side the parser would not associate to
+    /// (`a - (b - c)`, `a / (b * c)`).
+    fn to_string_as_operand(&self, parent: BinOp, is_right: bool) -> String {
         match self {
-            Exp::BinOp(op, lhs, rhs) => {
-                let string_lhs = lhs.to_string_with_precedence(*op);
-                let string_rhs = rhs.to_string_with_precedence(*op);
-                let precedence = op.precedence();
-                if precedence < last_precedence {
-                    format!("({} {} {})", string_lhs, op, string_rhs)
+            Exp::BinOp(op, _, _) => {
+                let same_level_regroups = if is_right {
+                    parent.is_left_associative() || op.is_left_associative()
                 } else {
-                    //TODO improve this
-                    match last_operator {
-                        BinOp::Add
-                        | BinOp::Mul
-                        | BinOp::Div
-                        | BinOp::And
-                        | BinOp::Or
-                        | BinOp::Xor
-                        | BinOp::Implies
-                        | BinOp::Iff => {
-                            format!("{} {} {}", string_lhs, op, string_rhs)
-                        }
-                        BinOp::Sub => match rhs.is_leaf() {
-                            true => format!("{} {} {}", string_lhs, op, string_rhs),
-                            false => format!("{} {} ({})", string_lhs, op, string_rhs),
-                        },
-                    }
+                    !parent.is_left_associative() || !op.is_left_associative()
+                };
+                if op.precedence() < parent.precedence()
+                    || (op.precedence() == parent.precedence() && same_level_regroups)
+                {
+                    format!("({})", self)
+                } else {
+                    self.to_string()
                 }
             }
             _ => self.to_string(),
@@ -596,9 +591,8 @@ impl fmt::Display for Exp {
                     .join(", ")
             ),
             Exp::BinOp(operator, lhs, rhs) => {
-                //TODO: add parenthesis when needed
-                let string_lhs = lhs.to_string_with_precedence(*operator);
-                let string_rhs = rhs.to_string_with_precedence(*operator);
+                let string_lhs = lhs.to_string_as_operand(*operator, false);
+                let string_rhs = rhs.to_string_as_operand(*operator, true);
                 format!("{} {} {}", string_lhs, operator, string_rhs)
             }
             Exp::UnOp(op, exp) => {
